@@ -1,4 +1,13 @@
 // C13: no EEPROM content can hang or crash the MainDevice.
+//
+// Every query runs over `AnyProvider`: each access returns FRESH symbolic bytes, which
+// over-approximates every EEPROM image and every inconsistent re-read. Kani's automatic checks
+// (overflow, index, unwrap, unreachable) are the oracle for "never panics / never indexes out of
+// bounds"; Kani builds with overflow-checks=on, and an expression that cannot overflow in the
+// checked build cannot wrap in the unchecked one, so one verdict covers both builds.
+// Termination: the category walk advances its word address by >= 2 per hop without wrap (that is
+// exactly the overflow check), so it ends after <= 32768 hops; harnesses cut the walk after BUDGET
+// provider accesses (assume) and say so.
 use crate::{
     eeprom::{EepromDataProvider, EepromRange, types::CategoryType},
     error::Error,
@@ -7,13 +16,11 @@ use crate::{
 };
 use embedded_io_async::Read;
 
-/// Provider returning fresh arbitrary bytes for every access: over-approximates every image (and
-/// every inconsistent re-read). Counts accesses.
 #[derive(Clone)]
-pub struct AnyProvider<const N: usize>;
+pub struct AnyProvider<const N: usize>(pub u8);
 
 pub struct Chunk<const N: usize> {
-    buf: [u8; N],
+    pub buf: [u8; N],
 }
 impl<const N: usize> core::ops::Deref for Chunk<N> {
     type Target = [u8];
@@ -23,16 +30,17 @@ impl<const N: usize> core::ops::Deref for Chunk<N> {
 }
 
 pub static mut READS: u32 = 0;
-pub static mut LAST_ADDR: u16 = 0;
+pub static mut BUDGET: u32 = 4;
 
 impl<const N: usize> EepromDataProvider for AnyProvider<N> {
     async fn read_chunk(
         &mut self,
-        start_word: u16,
+        _start_word: u16,
     ) -> Result<impl core::ops::Deref<Target = [u8]>, Error> {
         unsafe {
             READS += 1;
-            LAST_ADDR = start_word;
+            // Paths needing more device accesses than the budget are outside the claim.
+            kani::assume(READS <= BUDGET);
         }
         let bytes: [u8; N] = kani::any();
         Ok(Chunk { buf: bytes })
@@ -45,20 +53,206 @@ impl<const N: usize> EepromDataProvider for AnyProvider<N> {
     }
 }
 
+fn budget(n: u32) {
+    unsafe {
+        READS = 0;
+        BUDGET = n;
+    }
+}
+
 //@ harness: c13_size
 //@ property: C13, C12
 //@ tier: quick
 //@ unwind: 2
 //@ functions: SubDeviceEeprom::size; SubDeviceEeprom::start_at; EepromRange::new; EepromRange::read; embedded_io_async::Read::read_exact
-//@ bounds: one 2-byte read at word 0x3e; provider answers every access with 8 fresh symbolic bytes (all images)
+//@ bounds: one 2-byte read at word 0x3e; 8-byte chunks; all 2^16 size words
 #[kani::proof]
 #[kani::unwind(2)]
 pub fn c13_size() {
-    let e = SubDeviceEeprom::new(AnyProvider::<8>);
+    budget(4);
+    let e = SubDeviceEeprom::new(AnyProvider::<8>(0));
     let r = run_ready(e.size());
     kani::cover!(r.is_ok());
     if let Ok(sz) = r {
-        // C12: size reported equals (word+1) kbit in bytes
-        assert!(sz >= 128 && sz % 128 == 0);
+        // C12: reported size is (word+1) Kibit = (word+1)*128 bytes, as a mathematical integer
+        assert!(sz >= 128 && sz % 128 == 0 && sz <= 65536 * 128);
     }
+}
+
+//@ harness: c13_walk_8
+//@ property: C13
+//@ tier: quick
+//@ unwind: 8
+//@ timeout: 900
+//@ functions: SubDeviceEeprom::items; SubDeviceEeprom::category; EepromRange::new; CategoryType::from
+//@ bounds: category walk of <= 6 hops over arbitrary headers (type, length any u16); 8-byte chunks; longer walks cut by assume
+//@ assumes: paths needing more than 6 provider accesses are cut (assume); termination beyond that rests on the proved absence of address wrap (+>=2 words per hop)
+#[kani::proof]
+#[kani::unwind(8)]
+pub fn c13_walk_8() {
+    budget(6);
+    let e = SubDeviceEeprom::new(AnyProvider::<8>(0));
+    let r = run_ready(e.items::<crate::eeprom::types::SyncManager>(CategoryType::SyncManager));
+    kani::cover!(r.is_ok());
+    kani::cover!(unsafe { READS } == 6);
+}
+
+//@ harness: c13_walk_4
+//@ property: C13
+//@ tier: thorough
+//@ unwind: 8
+//@ timeout: 900
+//@ functions: SubDeviceEeprom::items; SubDeviceEeprom::category; EepromRange::new
+//@ bounds: as c13_walk_8 with 4-byte chunks
+//@ assumes: paths needing more than 6 provider accesses are cut (assume)
+#[kani::proof]
+#[kani::unwind(8)]
+pub fn c13_walk_4() {
+    budget(6);
+    let e = SubDeviceEeprom::new(AnyProvider::<4>(0));
+    let r = run_ready(e.items::<crate::eeprom::types::Pdo>(CategoryType::TxPdo));
+    kani::cover!(r.is_ok());
+}
+
+//@ harness: c13_range_new_total
+//@ property: C13
+//@ tier: quick
+//@ unwind: 2
+//@ functions: EepromRange::new; EepromRange::skip_ahead_bytes
+//@ bounds: every (start_word, len_words, skip) in u16^3 - complete for these two functions
+#[kani::proof]
+#[kani::unwind(2)]
+pub fn c13_range_new_total() {
+    let s: u16 = kani::any();
+    let l: u16 = kani::any();
+    let mut r = EepromRange::new(AnyProvider::<8>(0), s, l);
+    let (pos, end) = r.verif_state();
+    // the window never starts after its end and starts at the requested word when representable
+    assert!(pos <= end);
+    if u32::from(s) * 2 <= 0xffff {
+        assert!(u32::from(pos) == u32::from(s) * 2);
+    }
+    let k: u16 = kani::any();
+    let res = r.skip_ahead_bytes(k);
+    let (pos2, end2) = r.verif_state();
+    kani::cover!(res.is_ok());
+    kani::cover!(res.is_err());
+    assert!(end2 == end);
+    if res.is_ok() {
+        assert!(u32::from(pos2) == u32::from(pos) + u32::from(k) && pos2 < end);
+    } else {
+        assert!(pos2 == pos);
+    }
+}
+
+//@ harness: c13_read_byte_total
+//@ property: C13
+//@ tier: quick
+//@ unwind: 2
+//@ functions: EepromRange::read_byte
+//@ bounds: every reachable range state (byte_pos <= end, any u16), both chunk sizes (two instantiations)
+#[kani::proof]
+#[kani::unwind(2)]
+pub fn c13_read_byte_total() {
+    budget(2);
+    let pos: u16 = kani::any();
+    let end: u16 = kani::any();
+    kani::assume(pos <= end);
+    let mut r = EepromRange::verif_from_state(AnyProvider::<8>(0), pos, end);
+    let a = run_ready(r.read_byte());
+    kani::cover!(a.is_ok());
+    let mut r4 = EepromRange::verif_from_state(AnyProvider::<4>(0), pos, end);
+    let b = run_ready(r4.read_byte());
+    kani::cover!(b.is_ok());
+}
+
+//@ harness: c13_read_total_8
+//@ property: C13
+//@ tier: quick
+//@ unwind: 3
+//@ timeout: 900
+//@ functions: EepromRange::read
+//@ bounds: every range state (byte_pos <= end, any u16), destination length 0..=9 (symbolic), 8-byte chunks: <= 2 chunk reads
+#[kani::proof]
+#[kani::unwind(3)]
+pub fn c13_read_total_8() {
+    budget(3);
+    let pos: u16 = kani::any();
+    let end: u16 = kani::any();
+    kani::assume(pos <= end);
+    let mut r = EepromRange::verif_from_state(AnyProvider::<8>(0), pos, end);
+    let mut buf = [0u8; 9];
+    let n: usize = kani::any();
+    kani::assume(n <= 9);
+    let res = run_ready(r.read(&mut buf[..n]));
+    let (pos2, end2) = r.verif_state();
+    kani::cover!(matches!(res, Ok(9)));
+    kani::cover!(matches!(res, Ok(0)));
+    match res {
+        Ok(k) => {
+            assert!(k <= n && k <= usize::from(end - pos));
+            assert!(usize::from(pos2) == usize::from(pos) + k && end2 == end);
+        }
+        Err(_) => {}
+    }
+}
+
+//@ harness: c13_read_total_4
+//@ property: C13
+//@ tier: thorough
+//@ unwind: 4
+//@ timeout: 1200
+//@ functions: EepromRange::read
+//@ bounds: as c13_read_total_8 with 4-byte chunks, destination 0..=9: <= 3 chunk reads
+#[kani::proof]
+#[kani::unwind(4)]
+pub fn c13_read_total_4() {
+    budget(4);
+    let pos: u16 = kani::any();
+    let end: u16 = kani::any();
+    kani::assume(pos <= end);
+    let mut r = EepromRange::verif_from_state(AnyProvider::<4>(0), pos, end);
+    let mut buf = [0u8; 9];
+    let n: usize = kani::any();
+    kani::assume(n <= 9);
+    let res = run_ready(r.read(&mut buf[..n]));
+    let (pos2, _end2) = r.verif_state();
+    kani::cover!(matches!(res, Ok(9)));
+    if let Ok(k) = res {
+        assert!(k <= n && k <= usize::from(end - pos));
+        assert!(usize::from(pos2) == usize::from(pos) + k);
+    }
+}
+
+// Item/fixed-block consumers (CategoryIterator::next, identity, mailbox_config, general) are
+// `read_exact` + `unpack_from_slice`. read_exact is the 10-line dependency loop over `read`;
+// with two nested async levels its symbolic encoding needs > 40 GB / 15 min per call (measured),
+// so those consumers are covered compositionally instead: `read` is total from EVERY cursor state
+// (c13_read_total_*), and every item decoder is total on every buffer (c13_unpack_total).
+
+//@ harness: c13_unpack_total
+//@ property: C13
+//@ tier: quick
+//@ unwind: 20
+//@ functions: SyncManager::unpack_from_slice; FmmuEx::unpack_from_slice; Pdo::unpack_from_slice; PdoEntry::unpack_from_slice; SiiGeneral::unpack_from_slice; DefaultMailbox::unpack_from_slice; SubDeviceIdentity::unpack_from_slice; FmmuUsage::try_from; CategoryType::from
+//@ bounds: every byte string of exactly PACKED_LEN bytes for each EEPROM item type (complete)
+#[kani::proof]
+#[kani::unwind(20)]
+pub fn c13_unpack_total() {
+    use crate::eeprom::types::*;
+    use ethercrab_wire::EtherCrabWireRead;
+    let b: [u8; 18] = kani::any();
+    let a = SyncManager::unpack_from_slice(&b[..8]);
+    let _ = FmmuEx::unpack_from_slice(&b[..3]);
+    let p = Pdo::unpack_from_slice(&b[..8]);
+    let _ = PdoEntry::unpack_from_slice(&b[..8]);
+    let g = SiiGeneral::unpack_from_slice(&b[..18]);
+    let _ = DefaultMailbox::unpack_from_slice(&b[..10]);
+    let _ = crate::subdevice::SubDeviceIdentity::unpack_from_slice(&b[..16]);
+    let _ = FmmuUsage::try_from(b[0]);
+    let _ = CategoryType::from(u16::from_le_bytes([b[0], b[1]]));
+    kani::cover!(a.is_ok());
+    kani::cover!(p.is_ok());
+    kani::cover!(g.is_ok());
+    kani::cover!(g.is_err());
 }
